@@ -185,6 +185,18 @@ def run_seq(seq, ctx=None):
     if len(recs) >= 2:
         # the constructor takes any iterable of records, also a one-shot one
         check_result(lambda: Converter(to_record(r) for r in recs), model, fails, f"Converter(<generator over {seq}>)", ctx)
+    if any(r.psyn or r.usyn for r in recs):
+        # the synonym fields take any iterable, also a one-shot one (pydantic turns it into a list)
+        def lazy():
+            return Converter([Record(prefix=r.prefix, uri_prefix=r.uri_prefix, prefix_synonyms=(s_ for s_ in r.psyn), uri_prefix_synonyms=iter(list(r.usyn)), pattern=r.pattern) for r in recs])
+
+        try:
+            Record(prefix="zz", uri_prefix="zz/", prefix_synonyms=(s_ for s_ in ["q"]))
+            lazy_ok = True
+        except Exception:  # noqa  (a library that rejects one-shot iterables for these fields is not judged here)
+            lazy_ok = False
+        if lazy_ok:
+            check_result(lazy, model, fails, f"Converter(<records of {seq} with their synonyms given as generators>)", ctx)
     w2 = f"from_extended_prefix_map({seq})"
     dicts = [{"prefix": r.prefix, "uri_prefix": r.uri_prefix, "prefix_synonyms": list(r.psyn), "uri_prefix_synonyms": list(r.usyn)} for r in recs]
     check_result(lambda: Converter.from_extended_prefix_map(dicts), model, fails, w2, ctx)
